@@ -766,6 +766,87 @@ BAD = [
     dict(path=['bad_tuple_list_eq'], params={'xs': L}, ret=B),
 ]
 
+# ---- round 6: a method that updates `self` (`self_state`), `del xs[i]`, `{…}.get(key, default)` on a dict display
+SRC += '''
+class Tally:
+    def __init__(self):
+        self.items = []
+        self.total = 0
+        self.other = 0
+
+    def push(self, item):
+        if self.items:
+            step = {1: 3, 2: 2}.get(item, 1)
+            if self.items[-1] % step == 0:
+                item = self.items[-1] + item
+                self.total -= self.items[-1]
+                del self.items[-1]
+        self.items.append(item)
+        self.total += item
+
+    def bad_self_other(self, item):
+        self.items.append(item + self.other)
+
+    def bad_self_call(self, item):
+        self.push(item)
+
+def del_item(xs, i):
+    del xs[i]
+    return len(xs)
+
+def group_of(m, d):
+    return {1: 3, 2: 2, -4: m}.get(m, d) + {}.get(m, 0)
+
+def bad_del_slice(xs):
+    del xs[1:2]
+    return len(xs)
+
+def bad_del_name(xs):
+    ys = [1]
+    del ys
+    return len(xs)
+
+def bad_display_str_keys(m):
+    return {'a': 1}.get(m, 0)
+
+def bad_display_dup_keys(m):
+    return {1: 1, 1: 2}.get(m, 0)
+
+def bad_display_method(m):
+    return len({1: 2}.keys())
+'''
+
+
+def _tally_push(a):
+    import types as _t
+    m = _t.ModuleType('tally')
+    exec(compile(SRC, '<sample>', 'exec'), m.__dict__)
+    t = m.Tally()
+    t.items, t.total = a['self_items'], a['self_total']
+    t.push(a['item'])
+    assert t.items is a['self_items']
+    a['self_total'] = t.total
+
+
+GOOD += [
+    dict(path=['Tally', 'push'], self_state=['items', 'total'], params={'self_items': L, 'self_total': I, 'item': I}, ret=N,
+         mutates=['self_items', 'self_total'], part=6, samples={'self_items': LISTS, 'self_total': [0, 7], 'item': [-3, 0, 1, 2, 3, 6]},
+         pycall=_tally_push),
+    dict(path=['del_item'], params={'xs': L, 'i': I}, ret=I, mutates=['xs'], part=6, samples={'xs': LISTS, 'i': [-8, -3, -1, 0, 1, 2, 6, 7]}),
+    dict(path=['group_of'], params={'m': I, 'd': I}, ret=I, part=6, samples={'m': SMALL, 'd': [0, 5]}),
+]
+BAD += [
+    dict(path=['Tally', 'bad_self_other'], self_state=['items', 'total'], params={'self_items': L, 'self_total': I, 'item': I}, ret=N,
+         mutates=['self_items', 'self_total'], part=6),
+    dict(path=['Tally', 'bad_self_call'], self_state=['items', 'total'], params={'self_items': L, 'self_total': I, 'item': I}, ret=N,
+         mutates=['self_items', 'self_total'], part=6),
+    dict(path=['bad_del_slice'], params={'xs': L}, ret=I, mutates=['xs'], part=6),
+    dict(path=['bad_del_name'], params={'xs': L}, ret=I, part=6),
+    dict(path=['bad_display_str_keys'], params={'m': I}, ret=I, part=6),
+    dict(path=['bad_display_dup_keys'], params={'m': I}, ret=I, part=6),
+    dict(path=['bad_display_method'], params={'m': I}, ret=I, part=6),
+]
+
 
 def main():
     leandir = sys.argv[1] if len(sys.argv) > 1 else os.path.join(HERE, '..', 'lean')
